@@ -114,20 +114,21 @@ def jobs(tier):
     add('bounded_lex_closure', osrc, 'hb_lex_closure', 'bounded', 'op_lex_closure::next with <= 4 up-values')
     J.append(Job('control', bsrc, 'h_control', includes=inc, defines=['VERIF_CONTROL'], kind='control', expect='fail', unwind=9, timeout=300))
     J.append(Job('opb_control', osrc, 'h_opb_control', includes=inc, defines=['VERIF_CONTROL'], kind='control', expect='fail', unwind=9, timeout=300))
-    J += bxcfg.jobs(vlib, Job, OUT, ['alt', 'scope', 'read', 'bind', 'block'], control=False)
+    J += bxcfg.jobs(vlib, Job, OUT, ['alt', 'scope', 'read', 'bind', 'block', 'format'], control=False)
     return J
 
 
 LEVEL = 'proof'
 TRUSTED = ['tools/cxx2c.py lowering']
 ASSUMPTIONS = [
-    'build_exec (build.cc): only the cases IFELSE ALT SCOPE CAPTURE CLOSE_STAR CLOSE_PLUS OR CAT READ BIND BLOCK of its switch are lowered (cxx2c keep_cases; the other cases are dropped and reaching one is a failed obligation); the recursive call is an ASSUMED contract with a ghost call log (records tree, layout, scope, upstream; never shrinks the layout -- re-established for the lowered cases), operator constructors that take a layout reserve an arbitrary non-empty range at its end (contract of layout::reserve, C13), layout::add_union by its C13 contract (props/bx/bx_model.h)',
+    'build_exec (build.cc): only the cases IFELSE ALT SCOPE CAPTURE CLOSE_STAR CLOSE_PLUS OR CAT READ BIND BLOCK FORMAT of its switch are lowered (cxx2c keep_cases; the other cases are dropped and reaching one is a failed obligation); the recursive call is an ASSUMED contract with a ghost call log (records tree, layout, scope, upstream; never shrinks the layout -- re-established for the lowered cases), operator constructors that take a layout reserve an arbitrary non-empty range at its end (contract of layout::reserve, C13), layout::add_union by its C13 contract (props/bx/bx_model.h)',
     'identifiers are atoms (equal atoms <=> equal strings); std::map<std::string,T> is a total table over 4 atoms (props/c03/bind_model*.h); the functions under proof touch only the slot of their argument and the obligations are stated for an arbitrary probe name',
     'throw std::runtime_error -> error flag, message construction dropped; assert() failure -> error flag',
     'operators: stacks are arrays of value identities of depth <= 7, unique_ptr = plain pointer/int, value::clone() = identity, scon::get<state>(loc) = one state object per location, value_closure construction records the captured environment (props/c03/opb_model*.h)',
     'build_pred (build.cc): trees, layout, preds and build_exec are modelled (props/c03/bp_model.h); only the scope handed to build_exec is checked',
     'build_exec READ/BIND/BLOCK cases: bindings::find, uprefs::find, uprefs::refd_ids and the uprefs constructor are ASSUMED by the contracts checked in the bind unit of this property (what the scope chain and the enclosing table know is arbitrary per name); identifiers are atoms; one job per number of up-values 0..3 of a block',
-    'SLICE: the FORMAT case of build_exec (scope of format directives), names_closure, op_apply::substate and the parser are NOT covered',
+    'FORMAT case: one job per number (0..3) and kinds (literal / directive) of the pieces of a format string',
+    'SLICE: names_closure, op_apply::substate and the parser are NOT covered',
 ]
 EXPLANATION = 'Scope chain, rebind check, up-value ids and the binder/reader operators; see DESIGN.md section 4 C03.'
 
